@@ -1,5 +1,6 @@
 //! Shared harness code: PRNG, running Abra programs in-process against the real crates,
 //! case files for the Lean model driver.
+pub mod gcdrive;
 use abra_core::vm::{Runtime, RuntimeStatusKind, VmStatus};
 use abra_core::{MockFileProvider, VmType, compile_bytecode};
 use std::collections::HashMap;
